@@ -110,12 +110,16 @@ ENUM_CONFIGS = [
     (1, 0, ["D"], [[0, 0]], [[]], 1),
     (2, 0, ["D"], [[0, 1], [0]], [[]], 1),
     (2, 0, ["R", "D"], [[1, 1, 0]], [[]], 2),
+    # two senders overlapping inside uv_async_send on one handle, then uv_close
+    (1, 0, ["C0", "D"], [[0], [0]], [[]], 0, 6000),
 ]
 
 
 def enumerate_schedules(model, hooks, cfg, k, limit):
     n, e0, ls, senders, beh = cfg[:5]
     nullmask = cfg[5] if len(cfg) > 5 else 0
+    if len(cfg) > 6:
+        limit = max(limit, cfg[6])
     spec = fmt_case(hooks, n, e0, ls, senders, beh, None, [], nullmask) + " ; %d ; %d" % (k, limit)
     out, rc, err = vf.run_lines([model, "enum"], [spec])
     scheds = [l for l in out if l != "."]
@@ -154,6 +158,7 @@ def monitor(case, line):
     close_cb = [False] * n
     nxt = [0] * (len(c["senders"]) + 2)
     cur = {}
+    in_busy = {}
     for t in toks:
         if not t[0].isdigit():
             continue
@@ -165,6 +170,11 @@ def monitor(case, line):
                 nxt[tid] += 1
                 cur[tid] = h
                 begun[h] += 1
+            # between busy++ and busy-- (hook points 2, W, 3; without hooks only W is visible)
+            if label in ("2", "W", "3") and tid in cur:
+                in_busy[tid] = cur[tid]
+            elif label in ("A", "B", "1"):
+                in_busy.pop(tid, None)
             if label == "W" and tid in cur and close_ret[cur[tid]]:
                 return "a send on handle %d reached the eventfd write after uv_close(%d) had returned" % (cur[tid], cur[tid])
         if evs != "-":
@@ -181,6 +191,11 @@ def monitor(case, line):
                 elif e[0] == "k":
                     h, b = e[1:].split("=")
                     close_ret[int(h)] = True
+                    inside = sorted(t2 for t2, hh in in_busy.items() if hh == int(h))
+                    if inside:
+                        return ("uv_close(%s) returned while sender %s is still inside uv_async_send(%s), between "
+                                "its busy increment and decrement (busy field reads %s)"
+                                % (h, ",".join(map(str, inside)), h, b))
                     if int(b) != 0:
                         return "uv_close(%s) returned while a sender was inside uv_async_send (busy=%s)" % (h, b)
                 elif e[0] == "x":
